@@ -588,10 +588,13 @@ FP_SOURCES = {
     'Sequence.waveforms': _meth('waveforms'),
     'Sequence.write': _meth('write'),
     'Sequence.rf_from_lib_data': _meth('rf_from_lib_data'),
+    'Sequence.read': _meth('read'),
+    'print_error_report': _fn('check_timing.py', 'print_error_report'),
     'write_seq.blocks': _write_blocks,
 }
 FP_GROUPS = {
-    'FP_timing_check': ['check_timing', 'calc_duration', 'Sequence.check_timing', 'Sequence.rf_from_lib_data'],
+    'FP_timing_check': ['check_timing', 'calc_duration', 'Sequence.check_timing', 'Sequence.rf_from_lib_data',
+                        'Sequence.read', 'print_error_report'],
     'FP_timeline': ['set_block.events', 'calc_duration', 'cumsum', 'Sequence.duration', 'Sequence.adc_times', 'Sequence.rf_times',
                     'Sequence.waveforms', 'Sequence.write', 'write_seq.blocks'],
 }
